@@ -27,6 +27,18 @@ func queueVariant() Variant {
 	return v
 }
 
+// boundaryVariant starts the chain at height 253: due heights 254..259 straddle the byte boundary of the
+// big-endian height in the queue keys (…00FF -> …0100).
+func boundaryVariant() Variant {
+	v := Variant{Name: "queue-at-height-253", stats: &Stats{}, MaxRequests: 3, MaxSamePerBlock: 1, InitialHeight: 253}
+	for _, who := range []string{"A", "B"} {
+		for _, n := range []int64{1, 2, 3} {
+			v.Requests = append(v.Requests, tmpl{who: who, n: n})
+		}
+	}
+	return v
+}
+
 func oracleVariant() Variant {
 	return Variant{Name: "oracle", Service: true, stats: &Stats{}, MaxRequests: maxRequests(), MaxSamePerBlock: 2, Requests: []tmpl{
 		{who: "A", n: 1, oracle: true}, {who: "B", n: 1, oracle: true}, {who: "A", n: 2, oracle: true}, {who: "A", n: 1},
@@ -36,6 +48,9 @@ func oracleVariant() Variant {
 // QueueVariant / OracleVariant expose the two explorations for reuse by the cross-cutting checks (C13).
 func QueueVariant() Variant  { return queueVariant() }
 func OracleVariant() Variant { return oracleVariant() }
+
+// BoundaryVariant: the plain queue on a chain that starts at height 253.
+func BoundaryVariant() Variant { return boundaryVariant() }
 
 // OracleChoiceVariant: three providers are bound to the seed service, so every oracle request makes the
 // module choose one (used by the determinism check C11).
@@ -79,9 +94,11 @@ func withStats(p mc.Part, v Variant, alphabet string) mc.Part {
 
 // Parts of the C18 check.
 func Parts() []mc.Part {
-	q, o := queueVariant(), oracleVariant()
+	q, o, b := queueVariant(), oracleVariant(), boundaryVariant()
 	return []mc.Part{
 		KernelPart(),
+		withStats(mc.ExplorePart("queue-at-height-253", New(b), 7, 8, true, rule), b,
+			"as queue, chain starting at height 253 (due heights cross 255 -> 256)"),
 		withStats(mc.ExplorePart("queue", New(q), 8, 9, true, rule), q,
 			"request(consumer in {A,B}, interval in {1,2,3} and (A,0), plain), block (5..7 s); blockers: random"),
 		withStats(mc.ExplorePart("oracle", New(o), 8, 10, true, rule), o,
